@@ -472,11 +472,25 @@ TPanic ==
     /\ pend' = {x \in pend : x.p # E.p}
     /\ UNCHANGED <<idx, ver, hv, floor, cm, base, maxRet, seen, maxRev, evlog, ws, rds, prefixes, cmax, expiring, chg, ttl>>
 
+\* the engine's own partition answer (C13's premise): the pieces tile the scanned interval
+TParts ==
+    /\ Is("Parts") /\ Adv
+    /\ viol' = viol \cup V(E.wellformed, "PartitionsTileInterval")
+    /\ UNCHANGED <<idx, ver, hv, floor, cm, base, pend, maxRet, seen, maxRev, evlog, ws, rds, prefixes, cmax, expiring, chg, ttl>>
+
+\* C13 at a scale the bounded histories do not reach: n keys streamed as a whole and per advertised partition --
+\* every key exactly once, one terminator per stream, no error
+TBulk ==
+    /\ Is("BulkStream") /\ Adv
+    /\ viol' = viol \cup V(E.setup_ok => (E.missing = 0 /\ E.dups = 0 /\ E.foreign = 0 /\ E.streamed = E.n /\ E.terms = E.pieces /\ E.err = ""),
+                             "BulkStreamExactlyOnce")
+    /\ UNCHANGED <<idx, ver, hv, floor, cm, base, pend, maxRet, seen, maxRev, evlog, ws, rds, prefixes, cmax, expiring, chg, ttl>>
+
 TSkip ==
     /\ l <= Len(Trace) /\ E.e \in Skippable /\ Adv
     /\ UNCHANGED <<idx, ver, hv, floor, cm, base, pend, maxRet, seen, maxRev, evlog, ws, rds, prefixes, cmax, expiring, chg, ttl, viol>>
 
-TNext == TReset \/ TPanic \/ TInitEv \/ TInvoke \/ TCommit \/ TNotify \/ TCommitted \/ TReturn
+TNext == TReset \/ TPanic \/ TParts \/ TBulk \/ TInitEv \/ TInvoke \/ TCommit \/ TNotify \/ TCommitted \/ TReturn
          \/ TWatchInvoke \/ TWatchReturn \/ TRecv \/ TClosed \/ TQuiesce \/ TSkip
          \/ TRInvoke \/ TRReturn \/ TCInvoke \/ TCReturn \/ TDel \/ TExpect
 
@@ -505,6 +519,8 @@ M_ExpireWholly          == NoViol("ExpireWholly")
 M_ExpiryExpectation     == NoViol("ExpiryExpectation")
 M_UniqueRevision        == NoViol("UniqueRevision")
 M_NoPanic               == NoViol("NoPanic")
+M_BulkStreamExactlyOnce == NoViol("BulkStreamExactlyOnce")
+M_PartitionsTileInterval == NoViol("PartitionsTileInterval")
 M_ReadStable            == NoViol("ReadStable")
 M_RealTimeOrder         == NoViol("RealTimeOrder")
 M_HeaderCoversData      == NoViol("HeaderCoversData")
